@@ -732,6 +732,15 @@ func (e *engineA) memberAction() {
 				n.Voter = !n.Voter
 				conf.Nodes[id] = n
 				desc += fmt.Sprintf("ILLEGAL-flip(%d) ", id)
+				if e.rng.Intn(2) == 0 && len(members) > 1 {
+					id2 := members[e.rng.Intn(len(members))]
+					if id2 != id {
+						n2 := conf.Nodes[id2]
+						n2.Voter = !n2.Voter
+						conf.Nodes[id2] = n2
+						desc += fmt.Sprintf("ILLEGAL-flip(%d) ", id2)
+					}
+				}
 			} else {
 				delete(conf.Nodes, id)
 				desc += fmt.Sprintf("ILLEGAL-drop(%d) ", id)
